@@ -127,6 +127,8 @@ Ltac split_ifs H :=
   repeat match type of H with
   | context [if ?b then _ else _] => let E := fresh "E" in destruct b eqn:E
   | context [match ?l with [] => _ | _ :: _ => _ end] => let E := fresh "E" in destruct l eqn:E
+  | context [match ?o with Some _ => _ | None => _ end] =>
+      let E := fresh "E" in destruct o as [[? ?]|] eqn:E
   end; try discriminate H.
 
 Lemma step_inv c x l y : NoDup (devs c) -> inv c x -> step c x l = Some y -> inv c y.
@@ -165,7 +167,7 @@ Proof.
 Qed.
 
 Ltac expose :=
-  unfold addf, setf, setz, addz, setinc, setpfq, upd2, fC, fS, fDEC, fU, fCF, fM, fA, fTG, fPH in *;
+  unfold addf, setf, setz, addz, setinc, setpfq, upd2, fC, fS, fDEC, fU, fCF, fM, fA, fTG, fPH, fXC, fLI in *;
   cbn [f z inc pfq Z.eqb Pos.eqb andb] in *.
 
 Ltac bcase x d :=
@@ -303,6 +305,7 @@ Proof.
   apply andb_true_iff in H as [H H4]. apply andb_true_iff in H as [H H3]. apply andb_true_iff in H as [H1 H2].
   apply Z.eqb_eq in H2, H3, H4. rewrite forallb_forall in H1.
   split; [|auto]. intros d Hd. specialize (H1 d Hd).
+  apply andb_true_iff in H1 as [H1 Hd5].
   apply andb_true_iff in H1 as [H1 Hd4]. apply andb_true_iff in H1 as [H1 Hd3]. apply andb_true_iff in H1 as [Hd1 Hd2].
   apply Z.eqb_eq in Hd1, Hd2, Hd3, Hd4. auto.
 Qed.
@@ -404,3 +407,98 @@ Proof.
       by (vm_compute; discriminate).
     rewrite Ei, Er in G. apply G. reflexivity.
 Qed.
+
+(* ---------------------------------------------------------------------------------------------- *)
+(* external eject confirmation (confirm_eject_type switch / event) and incoming balls that time out *)
+Lemma pop_conf_confirmed l s r : pop_conf l = Some (s, r) -> s < UNCONF /\ In s l /\ length l = S (length r).
+Proof.
+  revert s r. induction l as [|e l IH]; intros s r H; cbn [pop_conf] in H; [discriminate|].
+  destruct (e <? UNCONF) eqn:E.
+  - inversion H; subst. apply Z.ltb_lt in E. split; [assumption | split; [left; reflexivity | reflexivity]].
+  - destruct (pop_conf l) as [[s' r']|] eqn:P; [|discriminate]. inversion H; subst.
+    destruct (IH s r' eq_refl) as [A [B C]]. split; [assumption | split; [right; assumption | cbn [length]; lia]].
+Qed.
+
+(* an arrival is only ever matched with a ball that can arrive (has passed its confirm switch / event), and it takes
+   exactly that ball off the list *)
+Lemma expected_arrival_is_confirmed_l c x d y :
+  step c x (LEnter d 0) = Some y ->
+  exists s r, pop_conf (inc x d) = Some (s, r) /\ s < UNCONF /\ In s (inc x d) /\ inc y d = r
+              /\ f y fCF s = f x fCF s + 1.
+Proof.
+  cbn [step]. unfold guard. intros H.
+  destruct (negb (isdev c d)); [discriminate|]. rewrite Z.eqb_refl in H.
+  destruct (pop_conf (inc x d)) as [[s r]|] eqn:P; [|discriminate].
+  destruct (isdev c s); [|discriminate]. inversion H; subst y; clear H.
+  destruct (pop_conf_confirmed _ _ _ P) as [A [B _]].
+  exists s, r. repeat split; try assumption.
+  - unfold addf, setf, setinc, upd1; cbn [inc]. rewrite Z.eqb_refl. reflexivity.
+  - rewrite f_addf_otherfield by reflexivity. rewrite f_addf_same. rewrite f_setinc. reflexivity.
+Qed.
+
+Lemma memz_In d l : memz d l = true -> In d l.
+Proof.
+  unfold memz. intros H. apply existsb_exists in H as [e [He E]]. apply Z.eqb_eq in E; subst; assumption.
+Qed.
+
+(* a ball is reported lost only while it is still expected: after it has been booked as arrived (taken off the list
+   by LEnter) its timeout cannot be booked any more *)
+Lemma incoming_lost_only_if_expected_l c x t s y :
+  step c x (LIncTimeout t s) = Some y ->
+  In s (inc x t) /\ length (inc x t) = S (length (inc y t)) /\ f y fLI t = f x fLI t + 1.
+Proof.
+  cbn [step]. unfold guard. intros H.
+  destruct (isdev c t && isdev c s && memz s (inc x t)) eqn:G; [|discriminate].
+  apply andb_true_iff in G as [_ G]. apply memz_In in G. inversion H; subst y; clear H.
+  repeat split; [assumption | |].
+  - unfold addf, setf, setinc, upd1; cbn [inc]. rewrite Z.eqb_refl.
+    clear - G. induction (inc x t) as [|e l IH]; [contradiction|]. cbn [remove1].
+    destruct (e =? s) eqn:E; [reflexivity|]. cbn [length]. f_equal. apply IH.
+    destruct G as [->|G]; [rewrite Z.eqb_refl in E; discriminate | assumption].
+  - unfold addf, setf, upd2; cbn [f]. rewrite !Z.eqb_refl. reflexivity.
+Qed.
+
+Lemma incoming_lost_needs_timeout_l c x t s y : step c x (LIncLost t s) = Some y -> 1 <= f x fLI t.
+Proof.
+  cbn [step]. unfold guard. intros H.
+  destruct (isdev c t && isdev c s && (1 <=? f x fLI t)) eqn:G; [|discriminate].
+  apply andb_true_iff in G as [_ G]. apply Z.leb_le in G. assumption.
+Qed.
+
+(* an external confirmation is accepted once per eject *)
+Lemma confirmed_once_l c x d t y : step c x (LConfirmed d t) = Some y -> step c y (LConfirmed d t) = None.
+Proof.
+  cbn [step]. unfold guard. intros H.
+  match type of H with (if ?g then _ else _) = _ => destruct g eqn:G end; [|discriminate].
+  inversion H; subst y; clear H.
+  assert (X : f (setf (setinc x t (replace1 (d + UNCONF) d (inc x t))) fXC d 2) fXC d = 2) by apply f_setf_same.
+  rewrite X. replace (2 =? 1) with false by reflexivity. rewrite !andb_false_r. reflexivity.
+Qed.
+
+(* witness: a drained ball is ejected by the outhole, passes the confirm switch, dawdles beyond ball_missing_timeout,
+   is booked as lost and then drops into the trough after all (recorded from the real code, snapshots thinned out) *)
+Definition cfgX : cfg := [(0, 2); (1, 1); (3, 1)].
+Definition dsX : list (list Z) := [[0; 1; 1; 0; 1]; [1; 0; 0; 0; 0]; [3; 0; 0; 0; 0]].
+Definition pfX : list Z := [1; 1; 0; 2; 1].
+Definition preX : list label :=
+  [SLeave 9 3; SArrive 9 3; LCount 3 1; LCaptured; LPfRemoved; LEnter 3 1; LAdded 3; LChain 3 0; LEntered 3 1;
+   LSnap [[0;1;2;0;0];[1;0;0;0;0];[3;1;0;0;0]] [0;0;0;2];
+   LState 3 2; LAttempt 3 0 0; LState 3 3; LEjecting 3 0 0; LPulse 3; SLeave 3 0; LState 3 4; LExtWait 3; SNop;
+   LConfirmed 3 0; LSuccess 3 0;
+   LSnap [[0;1;2;0;1];[1;0;0;0;0];[3;1;0;4;0]] [0;0;0;2];
+   LCount 3 0; LState 3 3; LState 3 0;
+   LSnap [[0;1;2;0;1];[1;0;0;0;0];[3;0;0;0;0]] [0;0;0;2]].
+Definition lostX : list label :=
+  [LIncTimeout 0 3; LIncLost 0 3; LLost 0; LMissingEv 0;
+   LSnap [[0;1;1;0;0];[1;0;0;0;0];[3;0;0;0;0]] [1;1;0;2];
+   SArrive 3 0; LCount 0 2; LCaptured; LPfRemoved; LEnter 0 1; LAdded 0; LEntered 0 1;
+   LSnap [[0;2;2;0;0];[1;0;0;0;0];[3;0;0;0;0]] [0;0;0;2]; LTruth [[0;2];[1;0];[3;0]] 0; LRest].
+(* the same ball booked as arrived AND as lost (what a timeout list computed before waiting for the lock does) *)
+Definition twiceX : list label :=
+  [SArrive 3 0; LCount 0 2; LEnter 0 0; LEntered 0 0; LIncTimeout 0 3; LIncLost 0 3; LLost 0; LMissingEv 0].
+
+Lemma witnessX_accepted : accepts cfgX dsX pfX (preX ++ lostX) = true.
+Proof. vm_compute. reflexivity. Qed.
+
+Lemma booked_twice_rejected_l : c04_run (cfgX, (dsX, pfX), preX ++ twiceX) = Z.of_nat (length preX) + 4.
+Proof. vm_compute. reflexivity. Qed.
